@@ -196,10 +196,17 @@ impl<'a> Worker<'a> {
         if self.spec.want_digests {
             self.agg.digests.push((index, rep.digest));
         }
-        if self.agg.samples.len() < 3 && rep.stats.is_relevant(prop) && rep.violation.is_none() {
+        // samples: actual cases, preferring ones in which the property's own faults fired
+        let wants_fault = matches!(prop, "C05" | "C06" | "C18");
+        let faulted = rep.stats.counters.faults() > 0 || rep.stats.callback_panics > 0;
+        if self.agg.samples.len() < 3 && rep.stats.is_relevant(prop) && rep.violation.is_none() && (faulted || !wants_fault) {
             let c = case();
-            let ops: Vec<String> = c.steps.iter().map(|s| format!("slot{}:{}", s.slot, serde_json::to_string(&s.op).unwrap_or_default())).collect();
-            self.agg.samples.push(serde_json::json!({"workload": self.spec.workload, "index": index, "steps": ops}));
+            let ops: Vec<serde_json::Value> = c.steps.iter().map(|s| serde_json::to_value(s).unwrap_or_default()).collect();
+            self.agg.samples.push(serde_json::json!({
+                "workload": self.spec.workload, "index": index, "slots": c.slots, "allocator": c.heap,
+                "failing_request_ordinals_of_the_run": c.fail_run_req, "steps": ops,
+                "faults_fired_in_this_run": rep.stats.counters.faults(), "callback_panics_fired_in_this_run": rep.stats.callback_panics,
+            }));
         }
         if let Some(v) = &rep.violation {
             if v.has_prop(prop) {
